@@ -340,6 +340,12 @@ func exhaustiveC01(thorough bool, emit func(C01Case) bool) {
 		}
 	}
 	// multi-byte tokens at the start and inside of names and sequences, first and later records
+	// twin records: names / sequences of equal length that differ in one byte, in one stream
+	if !twinFields(func(a, b gen.B) bool {
+		return emit(C01Case{Recs: []FastaRec{{Name: a, Seq: gen.Lit(a)}, {Name: b, Seq: gen.Lit(a)}, {Name: a, Seq: gen.Lit(b)}, {Name: b, Seq: gen.Lit(b)}, {Name: a, Seq: gen.Lit(a)}}})
+	}) {
+		return
+	}
 	for _, tok := range gen.HostileTokens {
 		for pos := 0; pos < 3; pos++ {
 			val := append(append(gen.B{}, tok...), 'x')
